@@ -30,7 +30,7 @@ EXPLANATION = (
 NOT_DECIDED = ["decoded header / address / body values", "date conversion", "charset fallbacks", "that mailparser and the stdlib parser agree on a given message",
                "attachments whose MIME type is generic (application/octet-stream) are skipped although their name is supported (is_supported_mime_type gate, documented behaviour)"]
 TRUSTED = ["email.message.Message.walk / get_payload(decode=True) / get_filename, mailparser's attachment dictionaries, re module semantics"]
-FLOORS = {"C16-SIB": 27, "C16-ATT": 6, "C16-ORDER": 2, "C16-SEP": 36, "C16-ROUTE": 5, "C16-BYTES": 8}
+FLOORS = {"C16-SIB": 27, "C16-ATT": 6, "C16-ORDER": 2, "C16-SEP": 36, "C16-ROUTE": 5, "C16-BYTES": 8, "C16-POST": 1}
 
 EML = X + "mail/eml_email_extractor.py"
 MBOX = X + "mail/mbox_email_extractor.py"
@@ -419,6 +419,8 @@ def rule_route(ctx: Ctx) -> RuleReport:
 BANNED = {
     "make_header": "str(email.header.make_header(...)) re-composes a header: Header.__str__ inserts a space between a chunk in a non-ASCII charset and an adjacent ASCII chunk, "
                    "so 'K=F6hler?=, Anna' decodes to 'Köhler , Anna', and an unknown charset raises instead of falling back",
+    "get_charset": "Message.get_charset() returns the Charset object that set_charset() stored while a message is *composed*; for a parsed message it is always None. The charset a part "
+                   "declares is get_content_charset(): with get_charset() every ISO-8859-1 / KOI8-R / Shift_JIS body is decoded as UTF-8 into replacement characters",
 }
 
 
@@ -520,4 +522,27 @@ def rule_bytes(ctx: Ctx) -> RuleReport:
     return rep
 
 
-RULES = [rule_sib, rule_att, rule_order, rule_sep, rule_route, rule_bytes]
+def rule_post(ctx: Ctx) -> RuleReport:
+    """Subject and body are reported as the message stores them: the constructor of the shared result class trims the ends and nothing
+    else (= C05-POST restricted to EmailContent: the e-mail readers all build their result through this class)."""
+    from sa.rules.c05 import rule_post as r05
+
+    src = r05(ctx)
+    rep = RuleReport("C16-POST", "EmailContent.__post_init__ rewrites subject / body only by trimming their ends: inner white space, tabs and non-breaking blanks of a subject stay as sent")
+    rep.units = src.units
+    n = 0
+    for f in src.findings:
+        if "EmailContent" in f.function or "EmailContent" in f.construct:
+            f.rule = "C16-POST"
+            rep.fail(f)
+            n += 1
+    mail_ok = [o for o in src.samples if isinstance(o, dict) and o.get("class") == "EmailContent"]
+    for o in mail_ok:
+        rep.ok(o)
+    if not mail_ok and n == 0:
+        # the class has no __post_init__ any more: nothing is rewritten
+        rep.ok({"EmailContent": "no field rewritten at construction"})
+    return rep
+
+
+RULES = [rule_sib, rule_att, rule_order, rule_sep, rule_route, rule_bytes, rule_post]
